@@ -71,7 +71,7 @@ CHECKS = {
          "Trusted: vt/irref.py for false loops; a 20 s alarm as hang detector. Loops through nets/children are not generated.",
          "DESIGN.md 6.C11", "E1 E2"),
  "C13": ("exploration",
-         "bounded exhaustive enumeration: every pair of a 49-entry catalogue of colliding component instances under one top x both backends (name/body rule + execution of the emitted text), "
+         "bounded exhaustive enumeration: every pair of a 51-entry catalogue of colliding component instances under one top x both backends (name/body rule + execution of the emitted text), "
          "and a design catalogue x enumerated PYTHONHASHSEED child processes + object-hash permutations (byte comparison)",
          "Aliasing: every pair (quick: unordered, thorough: ordered) of catalogue entries -- same class with different values / types / keyword order / defaults / list, type and bitstruct-type "
          "parameters / >64-character and special-character parameter lists, two classes with one __name__, bodies depending on module-level state, a set_param override -- is built as two "
